@@ -104,13 +104,7 @@ func vC43_producer() {
 	kind := vChoose("kind", 7)
 	switch kind {
 	case 0:
-		var m *commands.RegisterConsumer
-		var err error
-		if vNondetBool("nonceIsCurrent") {
-			m, err = commands.NewRegisterConsumer("N")
-		} else {
-			m, err = commands.NewRegisterConsumer("N2")
-		}
+		m, err := commands.VRegisterConsumer(vC43_str2("nonceIsCurrent", "N", "N2"))
 		vAssume(err == nil)
 		msg = m
 		switch vChoose("resolved", 3) {
@@ -124,14 +118,14 @@ func vC43_producer() {
 	case 1:
 		sessionCur, nonceCur := vNondetBool("sessionIsCurrent"), vNondetBool("nonceIsCurrent")
 		reqConfirmed, reqUpTo = vNondetInt64("reqConfirmed"), vNondetInt64("reqUpTo")
-		m, err := vC43_newRequest(sessionCur, nonceCur, reqConfirmed, reqUpTo, vNondetBool("viaTimeout"))
+		m, err := commands.VRequest(vC43_pick(sessionCur, "S", "S0"), vC43_pick(nonceCur, "N", "N2"), reqConfirmed, reqUpTo, vNondetBool("viaTimeout"))
 		vAssume(err == nil)
 		msg = m
 		authentic = preCC != nil && sender == preCC && sessionCur && nonceCur && preNonce == "N"
 	case 2:
 		sessionCur, nonceCur := vNondetBool("sessionIsCurrent"), vNondetBool("nonceIsCurrent")
 		reqConfirmed = vNondetInt64("ackConfirmed")
-		m, err := vC43_newAck(sessionCur, nonceCur, reqConfirmed)
+		m, err := commands.VAck(vC43_pick(sessionCur, "S", "S0"), vC43_pick(nonceCur, "N", "N2"), reqConfirmed)
 		vAssume(err == nil)
 		msg = m
 		authentic = preCC != nil && sender == preCC && sessionCur && nonceCur && preNonce == "N"
@@ -220,22 +214,27 @@ func vC43_ctell(x *consumerController, ctx *ReceiveContext, to *PID, message any
 // [expectedSeq, requestUpToSeq] (whole messages above expectedSeq unless something is in flight), len(buffer) <= window
 func vC43_consumerInv(x *consumerController) bool {
 	ok := x.expectedSeq == x.confirmedSeq+1 && x.confirmedSeq >= 0 && x.requestUpToSeq <= x.confirmedSeq+int64(x.window) && len(x.buffer) <= x.window
-	for i := 0; i < len(x.buffer); i++ {
-		s := x.buffer[i].Seq()
-		ok = ok && s >= x.expectedSeq && s <= x.requestUpToSeq
-		if i > 0 {
-			ok = ok && x.buffer[i-1].Seq() < s
+	ok = ok && len(x.buffer) <= 5
+	for i := 0; i < 5; i++ {
+		if i < len(x.buffer) {
+			s := x.buffer[i].Seq()
+			ok = ok && s >= x.expectedSeq && s <= x.requestUpToSeq
+			if i > 0 {
+				ok = ok && x.buffer[i-1].Seq() < s
+			}
 		}
 	}
 	return ok
 }
 
-func vC43_consumer() {
+func vC43_consumer() { vC43_consumerStep(vCase("kind")) }
+
+func vC43_consumerStep(kind int) {
 	vRD_reset()
 	cons, self, pc, other := vRD_pid("c"), vRD_pid("s"), vRD_pid("p"), vRD_pid("o")
 	x := &consumerController{consumer: cons, producerName: "producer", resendInterval: time.Second, generation: 1}
 	x.window = vNondetInt("window")
-	vAssume(x.window >= 1 && x.window <= 3)
+	vAssume(x.window >= 1 && x.window <= 4)
 	if vNondetBool("resolved") {
 		x.producerController = pc
 		x.registrationNonce = "N"
@@ -249,7 +248,9 @@ func vC43_consumer() {
 	x.requestUpToSeq = vNondetInt64("requestUpToSeq")
 	nbuf := vCase("bufLen")
 	for i := 0; i < nbuf; i++ {
-		x.buffer = append(x.buffer, vC43_sequenced("buf"))
+		off := vNondetInt64("bufOffset")
+		vAssume(off >= 1 && off <= 4)
+		x.buffer = append(x.buffer, vC43_sequencedCur("buf", x.confirmedSeq+off))
 	}
 	if vNondetBool("inFlight") {
 		x.inFlight = &Delivery{sessionID: x.sessionID, messageID: "m0", seq: vNondetInt64("inFlightSeq"), payload: &vRDMsg{data: []byte{1}}, endpoint: cons, controller: self}
@@ -268,10 +269,9 @@ func vC43_consumer() {
 		sender = cons
 	}
 	var msg any
-	kind := vChoose("kind", 5)
 	switch kind {
 	case 0:
-		m, err := vC43_newRegistrationAck(vNondetBool("sessionIsCurrent"), vNondetBool("nonceIsCurrent"), vNondetInt64("nextSeq"))
+		m, err := commands.VRegistrationAck(vC43_str2("sessionIsCurrent", "S", "S2"), vNondetInt64("nextSeq"), vC43_str2("nonceIsCurrent", "N", "N0"))
 		vAssume(err == nil && m.NextSeq() < 1<<62)
 		msg = m
 	case 1:
@@ -313,61 +313,24 @@ func vC43_consumer() {
 	vCover("end")
 }
 
-func vC43_sequenced(name string) *commands.SequencedMessage {
-	var m *commands.SequencedMessage
-	var err error
-	seq := vNondetInt64(name + "Seq")
-	payload := []byte{vNondetByte(name + "Payload")}
-	chunked, first, last := vNondetBool(name+"Chunked"), vNondetBool(name+"First"), vNondetBool(name+"Last")
-	if vNondetBool(name + "SessionIsCurrent") {
-		m, err = commands.NewSequencedMessage("S", "m1", seq, payload)
-	} else {
-		m, err = commands.NewSequencedMessage("S2", "m1", seq, payload)
-	}
+// a sequenced message of the current session (what the receive buffer holds)
+func vC43_sequencedCur(name string, seq int64) *commands.SequencedMessage {
+	m, err := commands.VSequenced("S", "m1", seq, []byte{vNondetByte(name + "Payload")}, vNondetBool(name+"Chunked"), vNondetBool(name+"First"), vNondetBool(name+"Last"))
 	vAssume(err == nil)
-	if chunked {
-		if vNondetBool(name + "SessionIsCurrent2") {
-			m, err = commands.NewChunkedSequencedMessage("S", "m1", seq, payload, first, last)
-		} else {
-			m, err = commands.NewChunkedSequencedMessage("S2", "m1", seq, payload, first, last)
-		}
-		vAssume(err == nil)
-	}
 	return m
 }
 
-func vC43_newRequest(sessionCur, nonceCur bool, confirmed, upTo int64, viaTimeout bool) (*commands.Request, error) {
-	switch {
-	case sessionCur && nonceCur:
-		return commands.NewRequest("S", "N", confirmed, upTo, viaTimeout)
-	case sessionCur:
-		return commands.NewRequest("S", "N2", confirmed, upTo, viaTimeout)
-	case nonceCur:
-		return commands.NewRequest("S0", "N", confirmed, upTo, viaTimeout)
-	}
-	return commands.NewRequest("S0", "N2", confirmed, upTo, viaTimeout)
+// an arbitrary incoming sequenced message (any sequence, current or stale session)
+func vC43_sequenced(name string) *commands.SequencedMessage {
+	m, err := commands.VSequenced(vC43_str2(name+"SessionIsCurrent", "S", "S2"), "m1", vNondetInt64(name+"Seq"), []byte{vNondetByte(name + "Payload")},
+		vNondetBool(name+"Chunked"), vNondetBool(name+"First"), vNondetBool(name+"Last"))
+	vAssume(err == nil)
+	return m
 }
 
-func vC43_newAck(sessionCur, nonceCur bool, confirmed int64) (*commands.Ack, error) {
-	switch {
-	case sessionCur && nonceCur:
-		return commands.NewAck("S", "N", confirmed)
-	case sessionCur:
-		return commands.NewAck("S", "N2", confirmed)
-	case nonceCur:
-		return commands.NewAck("S0", "N", confirmed)
+func vC43_pick(c bool, a, b string) string {
+	if c {
+		return a
 	}
-	return commands.NewAck("S0", "N2", confirmed)
-}
-
-func vC43_newRegistrationAck(sessionCur, nonceCur bool, next int64) (*commands.RegistrationAck, error) {
-	switch {
-	case sessionCur && nonceCur:
-		return commands.NewRegistrationAck("S", next, "N")
-	case sessionCur:
-		return commands.NewRegistrationAck("S", next, "N0")
-	case nonceCur:
-		return commands.NewRegistrationAck("S2", next, "N")
-	}
-	return commands.NewRegistrationAck("S2", next, "N0")
+	return b
 }
